@@ -111,6 +111,15 @@ func scenarios() []scenario {
 			hdrs(5, &h2wire.Prio{Dep: 3, Excl: true, Weight: 70}, ":authority", ":path", ":method", ":scheme"),
 			prio(11, h2wire.Prio{Dep: 9, Weight: 2}),
 		}},
+		{"prio-then-settings", []step{
+			// a request in flight, then a PRIORITY frame, then SETTINGS and the first WINDOW_UPDATE, and no further HEADERS:
+			// whatever the handler of stream 1 reads, a later frame is never visible without the earlier one
+			settings(),
+			hdrs(1, nil, ":method", ":scheme", ":path", ":authority"),
+			prio(5, h2wire.Prio{Dep: 0, Excl: true, Weight: 200}),
+			settings(h2wire.Setting{ID: 4, Val: 131072}),
+			wu(0, 15663105),
+		}},
 		{"wu-then-settings", []step{
 			settings(),
 			hdrs(1, &h2wire.Prio{Dep: 0, Weight: 255}, ":method", ":scheme", ":path", ":authority"),
